@@ -16,6 +16,11 @@ begin must fail).
 Oracle (vf.scen_txn.check_model): per call the model says returns / raises X / unspecified; no request while an illegal
 call is in progress; nothing written after a fatal error was delivered; every accepted send resolves; commit after an
 abortable error raises that error; the epilogue transaction commits and is visible to a read-committed reader.
+
+Known cap: with a batch queued for a topic that Metadata reports as unauthorized, `_sender_routine` re-requests metadata
+without any back-off (leader unknown -> force_metadata_update -> repeat) until the batch expires after
+request_timeout_ms; in virtual time that is ~10^5 round trips at one instant, so those executions (thorough tier only)
+end at the step cap and are reported under caps_hit, not judged.
 """
 from vf import explore, scen_txn, txn_model
 
